@@ -27,4 +27,24 @@ theorem any_cond_src : any_cond = "l.refuseANY && qType == dns.TypeANY" := by de
 /-- The library middleware drops port-less remote addresses before consulting the limiter. -/
 theorem lib_port_cond_src : lib_port_cond = "addrPort.Port() == 0" := by decide
 
+/-- `RequestCounter.Add` runs `Push`, `Current` and the comparison inside one critical section
+(`Lock`, deferred `Unlock`), on the nanosecond stamp: the shape the interleaving model
+(`Model/RatelimitConc.lean`) gives the mutex variant. -/
+theorem add_calls_src : add_calls = "Lock,Unlock,UnixNano,Push,Current" := by decide
+/-- `incBackoff` increments an existing hit counter in place with one atomic `Add` (it is not stored
+again, so its expiry stays `Duration` after the first hit) and creates it with `SetDefault`. -/
+theorem inc_backoff_calls_src : inc_backoff_calls = "Get,Add,Add,SetDefault" := by decide
+/-- `hasHitRateLimit`: get-or-create of the subnet's counter, then `Add`, then `incBackoff`. -/
+theorem has_hit_calls_src : has_hit_calls = "Get,NewRequestCounter,SetDefault,Add,incBackoff" := by decide
+/-- The order of the decisions of `IsRateLimited`: address validation, ANY refusal, allowlist, backoff,
+then the family's window. -/
+theorem is_rate_limited_conds_src : is_rate_limited_conds =
+    "err != nil | l.refuseANY && qType == dns.TypeANY | err != nil | allowed | l.isBackoff(key) | ip.Is6()" := by
+  decide
+/-- A consul record allowlists exactly its host; a successful refresh replaces the dynamic networks
+with the decoded ones; a failed one returns the error before `Update`. -/
+theorem consul_host_prefix_src : consul_host_prefix = "r.Address.Prefix(r.Address.BitLen())" := by decide
+theorem consul_update_args_src : consul_update_args = "consulNets" := by decide
+theorem consul_refresh_returns_src : consul_refresh_returns = "err | nil" := by decide
+
 end Agd.Tie.C09
